@@ -400,6 +400,8 @@ def plan(tier, seed):
 		tasks.append(('t_repeated', dict(pi=pi)))
 	for w in (1, 2, 3):
 		tasks.append(('t_overlapping_calls', dict(w=w)))
+	for mode in ('threads', 'processes', 'executor'):
+		tasks.append(('t_size_mix', dict(mode=mode, maxlen=5 if tier == 'quick' else 7)))
 	for mi in range(len(CWD_MODES)):
 		tasks.append(('t_cwd_histories', dict(mi=mi, depth=3 if tier == 'quick' else 4)))
 	for mode in ('threads', 'processes', 'executor'):
@@ -483,6 +485,53 @@ def t_repeated(pi, only=None):
 	sh.count('repeated_entry_lists', 1)
 	sh.states, sh.transitions = nstates, ntrans
 	sh.sample(dict(family='repeated', pattern=pat, orders=len(orders)))
+	return sh
+
+
+def t_size_mix(mode, maxlen, only=None):
+	"""File lists mixing tiny files with files of 20 KiB and 300 KiB (anything that treats small and large inputs differently - batching,
+	sorting by size, separate queues): every arrangement of sizes up to `maxlen` files, each file with content of its own."""
+	from gambit.seq import SequenceFile
+	from gambit.sigs.calc import calc_file_signature, calc_file_signatures
+	from gambit.sigs.base import SignatureList
+	sh = Shard()
+	ks = fixtures.kspec(11, 'ATGAC')
+	with fixtures.workdir('c13z') as d:
+		def mk(i, size):
+			# a k-mer of its own per file (base-4 digits of i after the prefix), padded to the wanted size with prefix-free filler
+			own = 'ATGAC' + ''.join('ACGT'[(i >> (2 * j)) & 3] for j in range(11))
+			filler = {'S': 0, 'M': 20 * 1024, 'L': 300 * 1024}[size]
+			p = os.path.join(d, f'z{i}{size}.fa')
+			fixtures.write_fasta(p, ['GG' + own + 'GG', 'CCGG' * (filler // 4) + own[::-1].replace('CAGTA', 'CCCCC')])
+			return SequenceFile(p, 'fasta', None)
+		files = {(i, sz): mk(i, sz) for i in range(maxlen) for sz in 'SML'}
+		exp = {key: calc_file_signature(ks, f) for key, f in files.items()}
+		for n in range(2, maxlen + 1):
+			for pat in itertools.product('SML', repeat=n):
+				if len(set(pat)) < 2 or (n > 4 and pat.count('S') < n - 2) or (only is not None and list(pat) != only):
+					continue
+				flist = [files[(i, sz)] for i, sz in enumerate(pat)]
+				want = [exp[(i, sz)] for i, sz in enumerate(pat)]
+				ex = ThreadPoolExecutor(max_workers=2) if mode == 'executor' else None
+				kw = dict(executor=ex) if ex is not None else dict(concurrency=mode, max_workers=2)
+				sh.evals += 1
+				sh.traces += 1
+				case = dict(mode='size-mix', concurrency=mode, workers=2, n=n, order=None, pre_completed=0, fault=None, faultkind=None, sizes=list(pat))
+				try:
+					res = calc_file_signatures(ks, flist, **kw)
+				except BaseException as e:
+					sh.violation('unexpected-exception', case, 'one signature per file', repr(e))
+					continue
+				finally:
+					if ex is not None:
+						ex.shutdown(wait=True)
+				if not (isinstance(res, SignatureList) and len(res) == n and all(isinstance(a, np.ndarray) and np.array_equal(a, b) and a.dtype == b.dtype for a, b in zip(res, want))):
+					sh.violation('wrong-result', case, [w.tolist()[:4] for w in want], [None if r is None else np.asarray(r).tolist()[:4] for r in res])
+				else:
+					sh.nontrivial += 1
+					sh.count('size_mixed_file_lists')
+	sh.states, sh.transitions = 1, sh.evals
+	sh.sample(dict(family='size-mix', mode=mode, maxlen=maxlen))
 	return sh
 
 
@@ -982,6 +1031,8 @@ def replay(case, kind=None):
 		return [v for v in vs if v['case'].get('history') == case['history'] and v['case'].get('k') == case.get('k')][:1]
 	if case['mode'] == 'bodies':
 		return [v for v in t_bodies(case['pair'], 2).violations if v['case'].get('schedule') == case['schedule']][:1] or t_bodies(case['pair'], 2).violations[:1] and []
+	if case['mode'] == 'size-mix':
+		return t_size_mix(case['concurrency'], max(case['n'], 2), only=list(case['sizes'])).violations[:1]
 	if case['mode'] == 'overlapping-calls':
 		return t_overlapping_calls(case['workers'], only=[case['gated_file'], case['other_call'][0], case['other_call'][1]]).violations[:1]
 	if case['mode'] == 'cwd-history':
